@@ -303,8 +303,9 @@ theorem C03_gmx_v2_mint_value_le_paid {cfg : Config Rat} (hc : CfgOK cfg) {ps : 
     div_nonpos_of_nonpos_of_nonneg (mul_nonpos_of_nonpos_of_nonneg himp hlu) (by linarith)
   have hsh2 : r.priceImpactUsd * (sa * ps.shortPrice) / (la * ps.longPrice + sa * ps.shortPrice) ≤ 0 :=
     div_nonpos_of_nonpos_of_nonneg (mul_nonpos_of_nonpos_of_nonneg himp hsu) (by linarith)
-  have h1 := Gmx2.sideValue_le_paid hc ps (amount := la) (pout := ps.shortPrice) hpL hsh1
-  have h2 := Gmx2.sideValue_le_paid hc ps (amount := sa) (pout := ps.longPrice) hpS hsh2
+  have h1 := Gmx2.sideValue_le_paid hc ps.impactPool (amount := la) (pout := ps.shortPrice) hpL hsh1
+  have h2 := Gmx2.sideValue_le_paid hc (sideLeft ps.impactPool la ps.shortPrice
+    (r.priceImpactUsd * (la * ps.longPrice) / (la * ps.longPrice + sa * ps.shortPrice))) (amount := sa) (pout := ps.longPrice) hpS hsh2
   rw [max_eq_left hla] at h1
   rw [max_eq_left hsa] at h2
   rw [hv]; linarith
